@@ -18,10 +18,23 @@ class Ty:
 
 
 class Res:
-    """A resource type: name, whether this component exports (implements) it."""
-    def __init__(self, name, exported):
+    """A resource type: name, whether this component exports (implements) it.
+    alias_of: `type <name> = <alias_of.name>;` -- the same resource reached through an alias"""
+    def __init__(self, name, exported, alias_of=None):
         self.name = name
         self.exported = exported
+        self.alias_of = alias_of
+
+    @property
+    def root(self):
+        return self.alias_of.root if self.alias_of else self
+
+
+def alias(name, t):
+    """`type <name> = <t>` declared in the separate interface `tys` and `use`d by the interfaces that mention it"""
+    a = Ty(t.kind, **{k: v for k, v in t.__dict__.items() if k != "kind"})
+    a.alias_name = name
+    return a
 
 
 def prim(n):
@@ -81,8 +94,10 @@ for _p in PRIMS:
     globals()[_p.upper()] = prim(_p)
 
 
-def wit(t) -> str:
+def wit(t, raw=False) -> str:
     k = t.kind
+    if getattr(t, "alias_name", None) and not raw:
+        return t.alias_name
     if k == "prim":
         return t.name
     if k in ("record", "enum", "flags", "variant"):
@@ -129,11 +144,21 @@ def children(t):
     return []
 
 
+def aliases(t, out: dict):
+    """{alias name: WIT text of the aliased type} for every `alias()` reachable from t"""
+    for c in children(t):
+        aliases(c, out)
+    if getattr(t, "alias_name", None):
+        out.setdefault(t.alias_name, wit(t, raw=True))
+
+
 def decls(t, out: dict):
     """Collect named type declarations (WIT text) in dependency order."""
     for c in children(t):
         decls(c, out)
     k = t.kind
+    if getattr(t, "alias_name", None):
+        return
     if k == "record":
         out.setdefault(t.name, "record %s { %s }" % (t.name, ", ".join("%s: %s" % (n, wit(f)) for n, f in t.fields)))
     elif k == "enum":
